@@ -477,13 +477,13 @@ def _finite_formula(f, target=None):
     return st[0]
 
 
-def _r11(ctx):
+def _r11(ctx, rule_id="R-C08-11"):
     """cycles() and load() evaluate the curve transformed to the requested failure probability - on every path: the object
     whose parameters are broadcast against the argument is the result of transform_to_failure_probability(<the parameter>),
     never the curve as given (its native probability need not be the default)."""
     from ..dataflow import reaching_names
     prog = ctx.prog
-    ctx.rule("R-C08-11", floor=2, what="cycles/load use the curve transformed to the requested probability on every path")
+    ctx.rule(rule_id, floor=2, what="cycles/load use the curve transformed to the requested probability on every path")
     for name in ("basquin_cycles", "basquin_load"):
         f = prog.func(WC + "." + name)
         fp = [q for q in f.params if "prob" in q]
